@@ -757,7 +757,7 @@ def tree_round_trip_rule(chk, src):
             if fail is None:
                 try:
                     out = itl.call_function(fl, [ctor, basis, "file"] + ([extra] if cname == "TTNBase" else []))
-                except (AttributeError, KeyError, IndexError, TypeError, SymRaise, AnalysisError) as e:
+                except (AttributeError, KeyError, IndexError, TypeError, SymRaise) as e:
                     fail = f"reader fed with the writer's archive: {type(e).__name__}: {e}"
             want = [(f"tensor-of-node{i}", f"qn-of-node{i}") for i in range(n)]
             ok = fail is None and made == want and len(conn) == 1 and conn[0][1] == [("node", i) for i in range(n)] and bool(inst) and out is inst[-1] and out.root == ("node", 0) and getattr(out, "coeff", None) == "the-coeff" \
@@ -808,6 +808,9 @@ def chain_round_trip_rule(chk, src):
                 def __iter__(self):
                     return iter(sites)
             me = Chain("mp", site_num=n, qn=qn, qnidx=Val("qnidx"), qntot=Val("qntot"), to_right=Val("to_right"), coeff=Val("coeff"))
+            me._cls = cname
+            from .chain_rules import class_resolver
+            resolve = class_resolver(src, {"MatrixProduct": MP, "Mps": MPS} if cname in ("MatrixProduct", "Mps") else {cname: rel, "MatrixProduct": MP})
 
             class ObjArr(Sym):
                 def __init__(self):
@@ -822,7 +825,7 @@ def chain_round_trip_rule(chk, src):
 
                 def __len__(self):
                     return len(self.items)
-            itd = SymInterp(src, None, {"np": OpenSym("np", savez=lambda fname, **kw: saved.update(kw), empty=lambda n_, t=None, dtype=None, **k_: ObjArr()), "logger": Blob("logger"), "object": object,
+            itd = SymInterp(src, resolve, {"np": OpenSym("np", savez=lambda fname, **kw: saved.update(kw), empty=lambda n_, t=None, dtype=None, **k_: ObjArr()), "logger": Blob("logger"), "object": object,
                                         "super": lambda: Sym("super", dump=lambda fname, other_attrs=None: itd.call_function(base_d, [me, fname, other_attrs]))})
             itd.builtins["isinstance"] = lambda x, t: isinstance(x, t) if isinstance(t, type) else False
             from ..syminterp import SymRaise
@@ -843,14 +846,15 @@ def chain_round_trip_rule(chk, src):
 
             def cls_():
                 got["obj"] = New("loaded")
+                got["obj"]._cls = cname
                 return got["obj"]
-            itl = SymInterp(src, None, {"np": OpenSym("np", load=lambda *a, **k: Archive("npload"), iscomplexobj=lambda x: False), "backend": Blob("backend"), "logger": Blob("logger"),
+            itl = SymInterp(src, resolve, {"np": OpenSym("np", load=lambda *a, **k: Archive("npload"), iscomplexobj=lambda x: False), "backend": Blob("backend"), "logger": Blob("logger"),
                                         "int": lambda x: x, "bool": lambda x: x})
             out = None
             if fail is None:
                 try:
                     out = itl.call_function(fl, [cls_, "model", "file"])
-                except (AttributeError, KeyError, IndexError, TypeError, SymRaise, AnalysisError) as e:
+                except (AttributeError, KeyError, IndexError, TypeError, SymRaise) as e:
                     fail = f"reader fed with the writer's archive: {type(e).__name__}: {e}"
             o = got.get("obj")
             probs = [fail] if fail else []
